@@ -60,6 +60,11 @@ M = [
     ('children', '_has_id_intersection', 'pjplan/task.py', "    parent_root = parent.wbs._root() if parent.wbs is not None else _find_root(parent)", "    parent_root = parent", 'C05'),
     ('children', 'WBS.__init__', 'pjplan/wbs.py', "        self.__root._attach(self)\n", "", 'WR'),
     ('children', 'WBS.__init__', 'pjplan/wbs.py', "        self.__root = Task(EMPTY_TASK_ID, **kwargs)", "        self.__root = Task(0, **kwargs)", 'hidden-root'),
+    ('children', 'WBS.remove_all', 'pjplan/wbs.py', "        for t in tasks_to_delete:\n            self.__remove(t, self.__root)\n\n        return tasks_to_delete", "        for t in tasks_to_delete:\n            pass\n\n        return tasks_to_delete", 'members'),
+    ('children', 'WBS.remove_all', 'pjplan/wbs.py', "            self.__remove(t, self.__root)\n\n        return tasks_to_delete", "            self.__remove(t, self.__root)\n\n        return _ImmutableTaskList([])", 'returns'),
+    ('children', '_TaskList.remove_all', 'pjplan/task.py', "        for t in tasks_to_delete:\n            self.remove(t)\n\n        return tasks_to_delete", "        for t in tasks_to_delete:\n            pass\n\n        return tasks_to_delete", 'children-left'),
+    ('children', '_TaskList.remove_all', 'pjplan/task.py', "        tasks_to_delete = self(key, **kwargs)\n        if not tasks_to_delete:\n            return _ImmutableTaskList([])\n\n        for t in tasks_to_delete:\n            self.remove(t)\n\n        return tasks_to_delete",
+     "        tasks_to_delete = self(key, **kwargs)\n        if not tasks_to_delete:\n            return _ImmutableTaskList([])\n\n        for t in tasks_to_delete:\n            self.remove(t)\n\n        return _ImmutableTaskList([])", 'returns'),
     ('closure', 'get_children', 'pjplan/task.py', "                yield ch\n                yield from get_children(ch)", "                yield from get_children(ch)\n                yield ch", 'depth-first'),
     ('closure', 'get_parent', 'pjplan/task.py', "                yield t\n                yield from get_parent(t.parent)", "                yield t", 'ancestors'),
     ('closure', 'get_predecessor', 'pjplan/task.py', "            for pr in t.predecessors:\n                yield pr\n                yield from get_predecessor(pr)", "            for pr in t.predecessors:\n                yield from get_predecessor(pr)", 'every-transitive'),
